@@ -21,14 +21,57 @@ struct clh {
 };
 static struct clh *vx_self;
 
-/* ---- ini_config.emplace_back("key[!]=" + value) -------------------------------------------------------------------------- */
 enum { I_ignore_process_mask, I_process_mask, I_scheduler, I_affinity, I_bind, I_pu_step, I_pu_offset, I_numa_sensitive,
        I_os_threads, I_cores, I_high_priority_queues, I_other, N_INI };
 struct ini_rec { long count; bool is_num; str_t sval; size_t nval; };
-static struct ini_rec g_ini[N_INI];
-static long g_ini_total;
-static bool g_user_ini_late;     /* the user's --pika:ini entries were appended after an entry written by handle_arguments */
-static long g_user_ini_copied, g_user_ini_added;
+struct res_str { long calls; str_t dflt; str_t result; bool may_throw; };
+struct res_num { long calls; size_t dflt; size_t result; bool may_throw; };
+/* ---- all ghost state of this unit lives in ONE object, so that the frame condition has one target for it ---- */
+static struct {
+  struct ini_rec ini[N_INI];
+  long ini_total;
+  bool user_ini_late; /* the user's --pika:ini entries were appended after an entry written by handle_arguments */
+  long user_ini_copied, user_ini_added;
+  struct res_str r_process_mask, r_scheduler, r_affinity, r_bind;
+  struct res_num r_pu_step, r_pu_offset, r_numa, r_threads, r_cores;
+  bool pm_use_arg, nt_use_arg, nc_use_arg; /* the use_process_mask flags handed on */
+  bool args_ok; /* every resolution function got the caller's cfgmap and vm */
+  bool nt_rtcfg_ok;
+  long chk_domain, chk_descr, chk_offset, chk_step;
+  bool chk_on_resolved; /* every check saw the resolved value in the member it reads */
+  long mask_set;
+  str_t mask_set_from;
+  long logging_calls;
+} G;
+#define g_ini G.ini
+#define g_ini_total G.ini_total
+#define g_user_ini_late G.user_ini_late
+#define g_user_ini_copied G.user_ini_copied
+#define g_user_ini_added G.user_ini_added
+#define g_r_process_mask G.r_process_mask
+#define g_r_scheduler G.r_scheduler
+#define g_r_affinity G.r_affinity
+#define g_r_bind G.r_bind
+#define g_r_pu_step G.r_pu_step
+#define g_r_pu_offset G.r_pu_offset
+#define g_r_numa G.r_numa
+#define g_r_threads G.r_threads
+#define g_r_cores G.r_cores
+#define g_pm_use_arg G.pm_use_arg
+#define g_nt_use_arg G.nt_use_arg
+#define g_nc_use_arg G.nc_use_arg
+#define g_args_ok G.args_ok
+#define g_nt_rtcfg_ok G.nt_rtcfg_ok
+#define g_chk_domain G.chk_domain
+#define g_chk_descr G.chk_descr
+#define g_chk_offset G.chk_offset
+#define g_chk_step G.chk_step
+#define g_chk_on_resolved G.chk_on_resolved
+#define g_mask_set G.mask_set
+#define g_mask_set_from G.mask_set_from
+#define g_logging_calls G.logging_calls
+
+/* ---- ini_config.emplace_back("key[!]=" + value) -------------------------------------------------------------------------- */
 static int ini_index(int key)
 {
   switch (key)
@@ -104,18 +147,12 @@ static size_t get_entry_as_size_t(struct rtcfg *m, int key, size_t dflt)
 #define RT_NUM(field, d) ((self->rtcfg_.field.present && TOK_NUM_OK(self->rtcfg_.field.val)) ? TOK_NUM(self->rtcfg_.field.val) : (size_t) (d))
 
 /* ---- the resolution functions as T stubs ------------------------------------------------------------------------------------ */
-struct res_str { long calls; str_t dflt; str_t result; bool may_throw; };
-struct res_num { long calls; size_t dflt; size_t result; bool may_throw; };
-static struct res_str g_r_process_mask, g_r_scheduler, g_r_affinity, g_r_bind;
-static struct res_num g_r_pu_step, g_r_pu_offset, g_r_numa, g_r_threads, g_r_cores;
-static bool g_pm_use_arg, g_nt_use_arg, g_nc_use_arg;   /* the use_process_mask flags handed on */
 static struct cfgmap *g_cfgmap;
 static struct vmap *g_vm;
-static bool g_args_ok;     /* every resolution function got the caller's cfgmap and vm */
 #define STUB_STR(r) do { if ((r).calls < 2) (r).calls++; (r).dflt = default_; if (cfgmap != g_cfgmap || vm != g_vm) g_args_ok = false; \
-    if ((r).may_throw && nondet_bool()) { vx_throw(EXC_command_line_error); return S_empty; } return (r).result; } while (0)
+    if ((r).may_throw && nondet_bool()) { vx_callee_throw(EXC_command_line_error); return S_empty; } return (r).result; } while (0)
 #define STUB_NUM(r) do { if ((r).calls < 2) (r).calls++; (r).dflt = default_; if (cfgmap != g_cfgmap || vm != g_vm) g_args_ok = false; \
-    if ((r).may_throw && nondet_bool()) { vx_throw(EXC_command_line_error); return 0; } return (r).result; } while (0)
+    if ((r).may_throw && nondet_bool()) { vx_callee_throw(EXC_command_line_error); return 0; } return (r).result; } while (0)
 static str_t handle_process_mask(struct cfgmap *cfgmap, struct vmap *vm, str_t default_, bool use) { g_pm_use_arg = use; STUB_STR(g_r_process_mask); }
 static str_t handle_scheduler(struct cfgmap *cfgmap, struct vmap *vm, str_t default_) { STUB_STR(g_r_scheduler); }
 static str_t handle_affinity(struct cfgmap *cfgmap, struct vmap *vm, str_t default_) { STUB_STR(g_r_affinity); }
@@ -123,7 +160,6 @@ static str_t handle_affinity_bind(struct cfgmap *cfgmap, struct vmap *vm, str_t 
 static size_t handle_pu_step(struct cfgmap *cfgmap, struct vmap *vm, size_t default_) { STUB_NUM(g_r_pu_step); }
 static size_t handle_pu_offset(struct cfgmap *cfgmap, struct vmap *vm, size_t default_) { STUB_NUM(g_r_pu_offset); }
 static size_t handle_numa_sensitive(struct cfgmap *cfgmap, struct vmap *vm, size_t default_) { STUB_NUM(g_r_numa); }
-static bool g_nt_rtcfg_ok;
 static size_t handle_num_threads(struct cfgmap *cfgmap, const struct rtcfg *rtcfg, struct vmap *vm, bool use)
 {
   size_t default_ = 0;
@@ -139,25 +175,23 @@ static size_t handle_num_cores(struct cfgmap *cfgmap, struct vmap *vm, size_t nu
 }
 
 /* ---- validity checks (units check.*): called on the members; may throw ------------------------------------------------------ */
-static long g_chk_domain, g_chk_descr, g_chk_offset, g_chk_step;
-static bool g_chk_on_resolved;   /* every check saw the resolved value in the member it reads */
 static void check_affinity_domain(const struct clh *self)
 {
   if (g_chk_domain < 2) g_chk_domain++;
   if (g_r_affinity.calls != 1 || self->affinity_domain_ != g_r_affinity.result) g_chk_on_resolved = false;
-  if (nondet_bool()) vx_throw(EXC_command_line_error);
+  if (nondet_bool()) vx_callee_throw(EXC_command_line_error);
 }
 static void check_pu_step(const struct clh *self)
 {
   if (g_chk_step < 2) g_chk_step++;
   if (g_r_pu_step.calls != 1 || self->pu_step_ != g_r_pu_step.result) g_chk_on_resolved = false;
-  if (nondet_bool()) vx_throw(EXC_command_line_error);
+  if (nondet_bool()) vx_callee_throw(EXC_command_line_error);
 }
 static void check_pu_offset(const struct clh *self)
 {
   if (g_chk_offset < 2) g_chk_offset++;
   if (g_r_pu_offset.calls != 1 || self->pu_offset_ != g_r_pu_offset.result) g_chk_on_resolved = false;
-  if (nondet_bool()) vx_throw(EXC_command_line_error);
+  if (nondet_bool()) vx_callee_throw(EXC_command_line_error);
 }
 static void check_affinity_description(const struct clh *self)
 {
@@ -166,21 +200,19 @@ static void check_affinity_description(const struct clh *self)
       self->pu_step_ != g_r_pu_step.result || self->pu_offset_ != g_r_pu_offset.result ||
       self->affinity_domain_ != g_r_affinity.result ||
       (g_r_bind.result != S_empty && self->affinity_bind_ != g_r_bind.result)) g_chk_on_resolved = false;
-  if (nondet_bool()) vx_throw(EXC_command_line_error);
+  if (nondet_bool()) vx_callee_throw(EXC_command_line_error);
 }
 
 /* ---- process mask installation --------------------------------------------------------------------------------------------- */
 struct topology { int unused; };
 struct mask { str_t parsed_from; };
 static struct topology g_topology;
-static long g_mask_set;
-static str_t g_mask_set_from;
 static struct topology *get_topology(void) { return &g_topology; }
 /* from_string<mask_type>(s): throws bad_lexical_cast unless s is a well-formed mask (arbitrary per call site here) */
 static struct mask from_string_mask_type(str_t s)
 {
   struct mask m; m.parsed_from = s;
-  if (nondet_bool()) vx_throw(EXC_bad_lexical_cast);
+  if (nondet_bool()) vx_callee_throw(EXC_bad_lexical_cast);
   return m;
 }
 static void topo_set_cpubind_mask_main_thread(struct topology *t, struct mask m)
@@ -188,16 +220,11 @@ static void topo_set_cpubind_mask_main_thread(struct topology *t, struct mask m)
   if (g_mask_set < 2) g_mask_set++;
   g_mask_set_from = m.parsed_from;
 }
-static long g_logging_calls;
 static void update_logging_settings(struct clh *self, struct vmap *vm, struct inivec *ini_config) { g_logging_calls++; }
 
-#define ARG_FRAME vx_exc, g_exc_kind, g_throws, self->num_threads_, self->num_cores_, self->pu_step_, self->pu_offset_, \
-    self->numa_sensitive_, self->scheduler_, self->affinity_domain_, self->affinity_bind_, self->process_mask_, \
-    self->use_process_mask_, cfgmap->ignore_process_mask, cfgmap->other, __CPROVER_object_whole(g_ini), g_ini_total, \
-    g_user_ini_late, g_user_ini_copied, g_user_ini_added, g_r_process_mask, g_r_scheduler, g_r_affinity, g_r_bind, \
-    g_r_pu_step, g_r_pu_offset, g_r_numa, g_r_threads, g_r_cores, g_pm_use_arg, g_nt_use_arg, g_nc_use_arg, g_args_ok, \
-    g_nt_rtcfg_ok, g_chk_domain, g_chk_descr, g_chk_offset, g_chk_step, g_chk_on_resolved, g_mask_set, g_mask_set_from, \
-    g_logging_calls
+#define ARG_FRAME vx_exc, g_exc_kind, g_throws, g_callee_threw, G, self->num_threads_, self->num_cores_, self->pu_step_, \
+    self->pu_offset_, self->numa_sensitive_, self->scheduler_, self->affinity_domain_, self->affinity_bind_, \
+    self->process_mask_, self->use_process_mask_, cfgmap->ignore_process_mask, cfgmap->other
 #define NO_OFFSET ((size_t) -1)
 /* affinity_bind_ at the end: the resolved description, or the built-in default "balanced" if neither a binding nor a
  * pu-step / pu-offset was given */
@@ -233,6 +260,8 @@ __CPROVER_ensures(!vx_exc ==> (g_r_process_mask.result == S_empty ? g_mask_set =
 /* --pika:high-priority-threads: more queues than threads, or a scheduler without priority queues, stop start-up */
 __CPROVER_ensures((!vx_exc && self->vm_.high_priority_threads.present) ==> ((self->vm_.high_priority_threads.nval == NO_OFFSET || self->vm_.high_priority_threads.nval <= g_r_threads.result) && (g_r_scheduler.result == S_local_m_priority || g_r_scheduler.result == S_abp_m_priority) && INI_NUM(I_high_priority_queues, self->vm_.high_priority_threads.nval)))
 __CPROVER_ensures((!vx_exc && !self->vm_.high_priority_threads.present) ==> g_ini[I_high_priority_queues].count == 0)
+/* handle_arguments itself raises an error only for such a --pika:high-priority-threads (everything else is rejected by the callees) */
+__CPROVER_ensures((vx_exc && !g_callee_threw) ==> (self->vm_.high_priority_threads.present && ((self->vm_.high_priority_threads.nval != NO_OFFSET && self->vm_.high_priority_threads.nval > g_r_threads.result) || !(g_r_scheduler.result == S_local_m_priority || g_r_scheduler.result == S_abp_m_priority))))
 __CPROVER_assigns(ARG_FRAME)
 //@LIFT body
 
@@ -267,7 +296,7 @@ void harness(void)
   g_chk_domain = 0; g_chk_descr = 0; g_chk_offset = 0; g_chk_step = 0; g_chk_on_resolved = true;
   g_mask_set = 0; g_mask_set_from = S_empty; g_logging_calls = 0;
   handle_arguments(&c, &cm, g_vm, &iv);
-  if (vx_exc) VX_REACH("rejected");
+  if (vx_exc) { VX_REACH("rejected"); if (!g_callee_threw) VX_REACH("rejected_high_priority_threads"); }
   else
   {
     VX_REACH("accepted");
